@@ -136,8 +136,9 @@ def mk_rot(name, fn, T):
 
 def kernels(opts):
     tier = opts["tier"]
-    us = ["u8", "u16", "u32", "u64"] + (["u128"] if tier != "quick" else [])
-    ss = ["i8", "i16", "i32", "i64"] + (["i128"] if tier != "quick" else [])
+    # (u64/i64 are unsigned long / long here; unsigned long long / long long have their own specialisations)
+    us = ["u8", "u16", "u32", "u64", "ull"] + (["u128"] if tier != "quick" else [])
+    ss = ["i8", "i16", "i32", "i64", "ll"] + (["i128"] if tier != "quick" else [])
     ks = []
     for T in us:
         for fn in UNS:
